@@ -500,3 +500,79 @@ def parsed_selection(ctx):
     else:
         ctx.inconclusive.append("vacuity: project never pruned")
     ctx.sample({"paths": E.paths})
+
+
+# ---------------------------------------------------------------------------------------
+# O6: the entity-level `display` override written in the entity's documentation, in every documented spelling of a multi-valued key
+# ---------------------------------------------------------------------------------------
+DISPLAY_DOCS = [(["display: private"], ["private"]), (["display: public", "display: private"], ["public", "private"]),
+                (["display: public", "    private"], ["public", "private"]), (["Display: public", "display: protected", "display: private"], ["public", "protected", "private"]),
+                (["display: public", "    protected"], ["public", "protected"]), (["display: none"], ["none"]), ([], None)]
+
+
+def _o6_prog(doc):
+    return {"a.f90": ["module shapes"] + ["!! " + l for l in doc] + ["!!", "!! The shapes module."] +
+            ["integer, public :: vpub", "integer, private :: vpriv", "integer, protected :: vprot", "end module shapes"]}
+
+
+def o6_expected(override, project_display):
+    sel = project_display if override is None else override
+    if "none" in [x.lower() for x in sel]:
+        return []
+    acc = {"vpub": "public", "vpriv": "private", "vprot": "protected"}
+    return sorted(n for n, a in acc.items() if a in [x.lower() for x in sel])
+
+
+def _o6b_observe(p):
+    m = p.modules[0]
+    return sorted(str(v.name).lower() for v in m.variables)
+
+
+def replay_o6b(w):
+    import ford.sourceform as sf
+    old = sf.namelist
+    sf.namelist = sf.NameSelector()
+    try:
+        p = _parserh.project_concrete(_o6_prog(w["doc"]), display=list(w["project_display"]))
+        got = _o6b_observe(p)
+    finally:
+        sf.namelist = old
+    return got != w["expected"], {"documentation lines": w["doc"], "project display": w["project_display"], "variables listed": got,
+                                  "selected by the override (or the project setting)": w["expected"]}
+
+
+@obligation("C05", "O6.display-override-spellings", engine="SX(CV)", timeout=900)
+def display_override(ctx):
+    """module documentation carrying a `display` override in a symbolic spelling (one value, repeated key, continuation lines, three values,
+    none, absent) under a symbolic project setting: the module lists exactly the variables the override (else the project setting) selects"""
+    import ford.sourceform as sf
+    import ford.utils as fu
+
+    ctx.encode_fn(fu.meta_preprocessor)
+    ctx.encode_fn(sf.FortranBase._set_display)
+    ctx.encode_fn(sf.FortranBase.read_metadata)
+    ctx.bounds.update({"override spellings": len(DISPLAY_DOCS), "project settings": 2})
+
+    def h(E):
+        d = _CV.choice(E, "doc", list(range(len(DISPLAY_DOCS)))).concretize()   # the number of doc lines differs per spelling
+        pd = _CV.choice(E, "project_display", [["public", "protected"], ["private"]]).concretize()
+        doc, override = DISPLAY_DOCS[d]
+        want = o6_expected(override, pd)
+        E.e.snapshot = lambda m: {"doc": doc, "project_display": pd, "expected": want}
+        got = _parserh.project(_o6_prog(doc), post=_o6b_observe, display=list(pd))
+        E.reachable("pruned")
+        E.require(list(got) == list(want), "the display override in the documentation is not honoured as written")
+
+    E = sym.Engine(ctx, max_paths=500, incremental=True)
+    found = E.explore(h)
+    seen = set()
+    for (label, m, pc), snap in zip(found, E.snapshots):
+        if not snap or str(snap["doc"]) in seen:
+            continue
+        seen.add(str(snap["doc"]))
+        ctx.report(label, snap, replay_o6b)
+    if E.reached.get("pruned"):
+        ctx.twins += 1
+    else:
+        ctx.inconclusive.append("vacuity: project never pruned")
+    ctx.sample({"paths": E.paths})
